@@ -503,7 +503,7 @@ def run(R):
     if keys and not wild and all(under_wildcard_pattern(k.bb) for k in keys):
         R.ok("C03.project", "wildcard", "`*` iterates ColumnProvider::keys() (under a `[(_, Wildcard)]` pattern)", keys[0].loc())
     elif keys and wild:
-        under = all(any(call is wild[0] and val is True for call, val in sfa.call_facts(k.bb)) for k in keys)
+        under = all(any(call in wild and val is True for call, val in sfa.call_facts(k.bb)) for k in keys)
         if under:
             R.ok("C03.project", "wildcard", "`*` iterates ColumnProvider::keys()", keys[0].loc())
         else:
